@@ -12,6 +12,15 @@ def setup():
     ok2, out2 = wv.coq_make([f[:-2] + ".vo" for f in wv.coq_files()])
     print(out2[-3000:])
     if not ok2:
+        # compiled files left over from another state of the sources (copied sandboxes keep build output): rebuild from scratch once
+        import glob
+        for pat in ("*.vo", "*.vok", "*.vos", "*.glob", "Gen/*.vo", "Gen/*.vok", "Gen/*.vos", "Gen/*.glob", ".*.aux", "Gen/.*.aux", "Makefile", "Makefile.conf", ".Makefile.d"):
+            for f in glob.glob(os.path.join(wv.COQ, pat)):
+                os.remove(f)
+        print("setup: rebuilding the Coq development from scratch")
+        ok2, out2 = wv.coq_make([f[:-2] + ".vo" for f in wv.coq_files()])
+        print(out2[-3000:])
+    if not ok2:
         # a theorem file that does not build makes ITS check report a violation; setup itself only needs the tool chain
         print("setup: some .vo files were not produced (reported by the corresponding checks)")
     ok3 = os.path.exists(os.path.join(wv.COQ, "Extract.vo"))
